@@ -176,6 +176,7 @@ def _reduce_cs(p):
 def run(ctx):
     from . import e2e_rules as _e2e
 
+    ctx.attempt(_e2e.beam_rule, ctx, 'R9.E3')
     # the load integrals use the same measures: mirrored mesh, a point located first, then a mass-rule integral
     ctx.attempt(_e2e.geometry_rule, ctx, 'R9.E2')
     ctx.attempt(_e2e.loads_rule, ctx, 'R9.E1')
